@@ -90,6 +90,7 @@ std::string serializeResult(const ExecResult &r) {
   for (auto &kv : r.stats.c) os << "S\t" << kv.first << "\t" << kv.second << "\n";
   for (auto h : r.stateHashes) os << "H\t" << h << "\n";
   for (auto h : r.schedHashes) os << "G\t" << h << "\n";
+  if (r.schedDegraded) os << "D\t1\n";
   os << "T\t" << r.traceHash << "\n";
   return os.str();
 }
@@ -123,6 +124,8 @@ void parseResultLine(const std::string &line, ExecResult &r) {
     r.stateHashes.push_back(strtoull(f[1].c_str(), nullptr, 10));
   } else if (f[0] == "G" && f.size() >= 2) {
     r.schedHashes.push_back(strtoull(f[1].c_str(), nullptr, 10));
+  } else if (f[0] == "D") {
+    r.schedDegraded = true;
   } else if (f[0] == "T" && f.size() >= 2) {
     r.traceHash = strtoull(f[1].c_str(), nullptr, 10);
   }
@@ -834,7 +837,7 @@ void workerMain(int slot, Shared *sh, int outFd, const BatchCfg &cfg, const std:
     bool nondet = false;
     if (cfg.detEvery > 0 && idx % cfg.detEvery == 0) {
       ExecResult r2 = executePlan(plan);
-      if (r2.traceHash != r.traceHash) nondet = true;
+      if (r2.traceHash != r.traceHash || (!r.schedDegraded && !r2.schedDegraded && r2.schedHashes != r.schedHashes)) nondet = true;
       r.stats.inc("determinism_double_runs");
     }
     std::string s = "R\t" + std::to_string(idx) + "\n" + serializeResult(r);
@@ -931,7 +934,7 @@ int genRunMain(int argc, char **argv) {
     std::string a = argv[i];
     auto next = [&]() -> std::string { return i + 1 < argc ? argv[++i] : ""; };
     if (a == "--prop") cfg.prop = next();
-    else if (a == "--tier") cfg.tier = next() == "thorough" ? 1 : 0;
+    else if (a == "--tier") { std::string t = next(); cfg.tier = t == "thorough" ? 1 : t == "large" ? 2 : 0; }
     else if (a == "--seed") cfg.seed = strtoull(next().c_str(), nullptr, 10);
     else if (a == "--index") index = atoll(next().c_str());
     else if (a == "--only") cfg.only = next();
@@ -949,7 +952,7 @@ int batchMain(int argc, char **argv) {
     std::string a = argv[i];
     auto next = [&]() -> std::string { return i + 1 < argc ? argv[++i] : ""; };
     if (a == "--prop") cfg.prop = next();
-    else if (a == "--tier") cfg.tier = next() == "thorough" ? 1 : 0;
+    else if (a == "--tier") { std::string t = next(); cfg.tier = t == "thorough" ? 1 : t == "large" ? 2 : 0; }
     else if (a == "--runs") cfg.runs = atoll(next().c_str());
     else if (a == "--seed") cfg.seed = strtoull(next().c_str(), nullptr, 10);
     else if (a == "--workers") cfg.workers = atoi(next().c_str());
@@ -1024,7 +1027,7 @@ int batchMain(int argc, char **argv) {
   auto absorb = [&](long long idx, const ExecResult &res, bool nondet) {
     ++executed;
     if (nondet) ++nondetRuns;
-    if (!cfg.dumpHashes.empty()) hashDump.push_back(std::to_string(idx) + " " + hex64(res.traceHash) + " " + std::to_string(res.verdicts.size()));
+    if (!cfg.dumpHashes.empty()) hashDump.push_back(std::to_string(idx) + " " + hex64(res.detHash()) + " " + std::to_string(res.verdicts.size()));
     if (res.invalidPlan) {
       ++invalid;
       return;
